@@ -17,11 +17,11 @@ from .poly import Poly
 from . import poly as polymod
 from . import interp as I
 
-STATE = {'grad': True, 'eta_count': 0, 'sqrt_table': [], 'engine': None, 'cx': None, 'autograd_calls': []}
+STATE = {'grad': True, 'eta_count': 0, 'sqrt_table': [], 'engine': None, 'cx': None, 'autograd_calls': [], 'transparent': False}
 
 
 def reset_state():
-    STATE.update({'grad': True, 'eta_count': 0, 'sqrt_table': [], 'autograd_calls': []})
+    STATE.update({'grad': True, 'eta_count': 0, 'sqrt_table': [], 'autograd_calls': [], 'transparent': False})
 
 
 class TorchSize(tuple):
@@ -137,6 +137,9 @@ class XT:
     def _new(self, a, *parents):
         if not isinstance(a, np.ndarray):
             a = _obj(a)
+        if STATE['transparent']:
+            # ideal differentiation (C08 oracle): every value keeps its full dependence on the leaves
+            return XT(a, rg=any(isinstance(p, XT) and p.rg for p in (self,) + parents), leaf=False, dtype=self.dtype)
         rg = STATE['grad'] and any(isinstance(p, XT) and p.rg for p in (self,) + parents)
         if not STATE['grad']:
             a = _map(el_detach, a)
@@ -279,6 +282,8 @@ class XT:
         return self
 
     def m_detach(self):
+        if STATE['transparent']:
+            return XT(self.a, rg=False, leaf=True, dtype=self.dtype)     # value (and its dependence on the leaves) unchanged
         return XT(_map(el_detach, self.a), rg=False, leaf=True, dtype=self.dtype)
 
     def m_requires_grad_(self, flag=True):
@@ -464,7 +469,7 @@ def make_leaf(x):
         nm = f'eta{STATE["eta_count"]}'
         polymod.WEIGHTS[nm] = ('eta', 1)
         names.append(nm)
-        base = el_detach(flat[i])
+        base = flat[i] if STATE['transparent'] else el_detach(flat[i])
         pb = Poly.lift(base)
         if pb is None:
             raise Unsupported('autograd leaves need polynomial (J-domain) elements')
@@ -488,7 +493,7 @@ def autograd_grad(engine, cx, lineno, outputs, inputs, grad_outputs=None, retain
         grad_outputs = [grad_outputs]
     grad_outputs = list(grad_outputs)
     STATE['autograd_calls'].append({'line': lineno, 'create_graph': bool(create_graph), 'allow_unused': bool(allow_unused)})
-    if not any(o.rg for o in outputs):
+    if not any(o.rg for o in outputs) and not STATE['transparent']:
         raise I.PyExc('RuntimeError', 'element 0 of tensors does not require grad and does not have a grad_fn', lineno)
     # scalarise: S = sum_k <grad_out_k, out_k>  (grad_outputs are treated as constants by autograd)
     S = Poly()
@@ -521,8 +526,8 @@ def autograd_grad(engine, cx, lineno, outputs, inputs, grad_outputs=None, retain
         vals = np.empty(len(names), dtype=object)
         for i, n in enumerate(names):
             d = _unmark(S.diff(_mvar(n)))
-            vals[i] = d if create_graph else el_detach(d)
-        r = XT(vals.reshape(inp.a.shape), rg=bool(create_graph), leaf=not create_graph, dtype=inp.dtype)
+            vals[i] = d if (create_graph or STATE['transparent']) else el_detach(d)
+        r = XT(vals.reshape(inp.a.shape), rg=bool(create_graph) or STATE['transparent'], leaf=not create_graph, dtype=inp.dtype)
         results.append(r)
     return tuple(results)
 
@@ -664,7 +669,22 @@ def _fill(arr, d):
 
 
 def t_repeat_interleave(x, repeats, dim=0):
-    return x._new(np.repeat(x.a, repeats, axis=dim))
+    r = x._new(np.repeat(x.a, repeats, axis=dim))
+    if r.rg:
+        # the copies are distinct nodes of the autograd graph: give each its own formal (zero-valued) perturbation so that
+        # differentiating with respect to this intermediate tensor is expressible
+        flat = r.a.reshape(-1)
+        names = []
+        new = np.empty(flat.shape, dtype=object)
+        for i in range(flat.shape[0]):
+            STATE['eta_count'] += 1
+            nm = f'eta{STATE["eta_count"]}'
+            polymod.WEIGHTS[nm] = ('eta', 1)
+            names.append(nm)
+            new[i] = Poly.lift(flat[i]) + Poly.var(nm)
+        r.a = new.reshape(r.a.shape)
+        r.eta = names
+    return r
 
 
 def t_max(a, b=None):
